@@ -22,7 +22,7 @@ static pthread_cond_t gcv = PTHREAD_COND_INITIALIZER;
 static pthread_t main_tid, wtid[MAXT]; static int nwt = 0;
 static const volatile uint32_t *addr_seen[8]; static int naddr = 0;
 static int gate_on = 0, NWK = 0, Q = 0, sched[256], slen = 0, pos = 0, steps[MAXT], inturn[MAXT];
-static int stuck = 0;
+static int stuck = 0, unforced = 0;
 
 static int addr_class(const volatile uint32_t *p){ for(int i = 0; i < naddr; i++) if(addr_seen[i] == p) return i; if(naddr < 8){ addr_seen[naddr] = p; return naddr++; } return 7; }
 static int ident(int assign){
@@ -39,6 +39,7 @@ static void wait_turn(int L){
   while(gate_on && pos < slen && sched[pos] != L){
     struct timespec ts; clock_gettime(CLOCK_REALTIME, &ts); ts.tv_nsec += 20000000; if(ts.tv_nsec >= 1000000000){ ts.tv_sec++; ts.tv_nsec -= 1000000000; }
     pthread_cond_timedwait(&gcv, &gmu, &ts);
+    if(waited > 100 && pos < slen && sched[pos] > nwt){ pos++; unforced++; pthread_cond_broadcast(&gcv); continue; }  /* 2 s: the letter's owner never appeared (fewer worker threads than the word has letters): skip the letter */
     if(++waited > 1500){ stuck = 1; gate_on = 0; pthread_cond_broadcast(&gcv); break; }   /* 30 s without my turn: give up (infrastructure) */
   }
   inturn[L] = (gate_on && pos < slen && sched[pos] == L);
@@ -60,7 +61,7 @@ static void rng_cb(int pt, const volatile uint32_t *word, uint32_t aux){
   }
   pthread_mutex_unlock(&gmu);
 }
-static void recorder_reset(void){ nev = 0; nwt = 0; naddr = 0; pos = 0; stuck = 0; memset(steps, 0, sizeof(steps)); memset(inturn, 0, sizeof(inturn)); main_tid = pthread_self(); }
+static void recorder_reset(void){ nev = 0; nwt = 0; naddr = 0; pos = 0; stuck = 0; unforced = 0; memset(steps, 0, sizeof(steps)); memset(inturn, 0, sizeof(inturn)); main_tid = pthread_self(); }
 static void emit_events(void){
   for(int i = 0; i < nev; i++){
     if(EV[i].kind == 1) VRT_EMIT("{\"e\":\"Wrote\",\"w\":%d,\"v\":\"%u\",\"a\":%d}", EV[i].w, EV[i].v, EV[i].a);
@@ -106,7 +107,7 @@ static int child_sched(void *a_){
   if(stuck){ VRT_EMIT("{\"e\":\"Stuck\",\"pos\":%d}", pos); return 3; }
   emit_events();
   uint64_t hp = hash_matrix(par);
-  VRT_EMIT("{\"e\":\"Result\",\"h\":[%ld,%ld,%ld],\"forced\":%d,\"addrs\":%d}", H3(hp), pos, naddr);
+  VRT_EMIT("{\"e\":\"Result\",\"h\":[%ld,%ld,%ld],\"forced\":%d,\"addrs\":%d,\"skipped\":%d}", H3(hp), pos, naddr, unforced);
   VRT_EMIT("{\"e\":\"End\"}");
   return 0;
 }
